@@ -283,7 +283,10 @@ func processFunctionAndAnons(fn *ssa.Function, policy ir.LiteralPolicy, strictMo
 	}
 	visited[fn] = true
 
-	if fn.Synthetic != "" && fn.Name() != "init" {
+	// Synthetic package-level functions (wrappers, thunks) carry no user code. Synthetic
+	// functions nested in a user function do: go/ssa lowers the body of a range-over-func
+	// loop into a synthetic child, which must be analysed like any other closure.
+	if fn.Synthetic != "" && fn.Name() != "init" && fn.Parent() == nil {
 		return
 	}
 
